@@ -37,6 +37,8 @@ class Recorder:
     rec = Rec(stub, args, self.serial)
     if self.mutate_args:
       for v in args.values():
+        if v is stubmod.DEFAULT_LIST:
+          continue    # (the callable's own default object: leave the stub module alone)
         if type(v) is list:
           v.append('mutated-by-callee')
         elif type(v) is dict and v is not args.get('kw'):
